@@ -70,6 +70,26 @@ pub fn check_transitions(sim: &mut Sim, m: Mon, ex: &mut Exercised) {
         }
     }
     sim.last_transitions = trans;
+    // C13: the moment a cleanup offer appears, all direct downstreams have finished and none of them
+    // has failed, is upstream-failed or aborted (a downstream may still be turned upstream-failed
+    // later by a late failure elsewhere; the offer stands until it is acknowledged)
+    if on(m, 13) && !sim.offered_now.is_empty() && !sim.dead {
+        let snap = sim.eng.verif_snapshot();
+        let g = &sim.cfg.graph;
+        let mut v = Vec::new();
+        for &j in sim.offered_now.iter() {
+            ex.hit("C13.offer-moment");
+            for d in g.downs(j) {
+                let sd = &snap.jobs[d].state;
+                if !is_finished_state(sd) {
+                    v.push(viol("C13", "offered-downstream-unfinished", format!("{} cleanup offered, downstream {} is {:?}", g.jobs[j].id, g.jobs[d].id, sd)));
+                } else if is_failed_any(sd) && !sim.aborted {
+                    v.push(viol("C13", "offered-downstream-failed", format!("{} cleanup offered, downstream {} is {:?}", g.jobs[j].id, g.jobs[d].id, sd)));
+                }
+            }
+        }
+        sim.viol.extend(v);
+    }
 }
 
 /// invariants of every reachable state (between driver calls)
@@ -214,10 +234,9 @@ pub fn check_state(sim: &mut Sim, snap: &VerifSnapshot, m: Mon, ex: &mut Exercis
                     v.push(viol("C13", "offered-not-executed", format!("{} offered for cleanup but not executed successfully", id)));
                 }
                 for d in g.downs(j) {
+                    // (whether a downstream had failed is judged at the moment of the offer: check_transitions)
                     if !is_finished_state(st(d)) {
                         v.push(viol("C13", "offered-downstream-unfinished", format!("{} cleanup offered, downstream {} is {:?}", id, g.jobs[d].id, st(d))));
-                    } else if is_failed_any(st(d)) && !sim.aborted {
-                        v.push(viol("C13", "offered-downstream-failed", format!("{} cleanup offered, downstream {} is {:?}", id, g.jobs[d].id, st(d))));
                     }
                 }
                 if sim.acked[j] {
